@@ -184,7 +184,7 @@ func (w *world) exec(as *actorState) {
 		if cs.plan.Server == "attachment" {
 			addr = w.plan.Att.Addr
 		}
-		cs.peer = simnet.Dial(addr, cs.plan.Label)
+		cs.peer = simnet.EnvDial(addr, cs.plan.Label)
 		if cs.peer == nil {
 			panic("harness: no listener at " + addr)
 		}
